@@ -42,6 +42,12 @@ def _subclasses(c):
     return out
 
 
+NOT_STANDALONE = {
+    'containerbase.ContainerBase': 'abstract root without from_node',
+    'eventing_types.UnsubscribeResponse': 'as_etree_node returns None by design (empty soap body)',
+}
+
+
 def class_key(cls) -> str:
     return f'{cls.__module__.split(".")[-1]}.{cls.__qualname__}'
 
@@ -275,6 +281,8 @@ def canon(v, skip_current_ts=True):
         return ('float', v.hex())
     if isinstance(v, isoduration.XsdDateInformation):
         return ('date', str(v))
+    if isinstance(v, str):      # a str-valued Enum member equals the plain string (and is written as such)
+        return 'str:' + repr(str(v.value) if isinstance(v, enum.Enum) else str(v))
     return scalar_key(v) if v is not None else None
 
 
